@@ -17,6 +17,7 @@ import (
 	"time"
 
 	"github.com/oneconcern/datamon/pkg/cafs"
+	"github.com/oneconcern/datamon/pkg/storage"
 	"go.uber.org/zap"
 
 	"verifharness/coqfmt"
@@ -54,6 +55,7 @@ type cafsCase struct {
 	Warm       bool         `json:"warm"`    // an instance reads the object before the damage and is probed again after it
 	Prefetch   int          `json:"prefetch"`
 	Flushes    int          `json:"flushes"`
+	SlowPut    int          `json:"slowput,omitempty"` // blob writes take this many milliseconds: flushes stay in flight
 	CacheBytes int          `json:"cache"`
 	Damage     []cafsDamage `json:"damage,omitempty"`
 	Probes     []cafsProbe  `json:"probes"`
@@ -169,7 +171,11 @@ func guarded(d time.Duration, f func() error) (class string) {
 }
 
 func cafsFs(cs *cafsCase, st *memstore.Store) cafs.Fs {
-	opts := []cafs.Option{cafs.LeafSize(uint32(cs.L)), cafs.Backend(st), cafs.Logger(zap.NewNop()), cafs.Prefetch(cs.Prefetch)}
+	var backend storage.Store = st
+	if cs.SlowPut > 0 {
+		backend = &memstore.Recorder{Store: st, Log: &memstore.PutLog{}, Name: "blob", SlowFor: time.Duration(cs.SlowPut) * time.Millisecond}
+	}
+	opts := []cafs.Option{cafs.LeafSize(uint32(cs.L)), cafs.Backend(backend), cafs.Logger(zap.NewNop()), cafs.Prefetch(cs.Prefetch)}
 	if cs.Flushes > 0 {
 		opts = append(opts, cafs.ConcurrentFlushes(cs.Flushes))
 	}
@@ -294,6 +300,25 @@ func cafsRun(cs *cafsCase, py *pyRef) {
 				out = buf[:n]
 				if err == io.EOF {
 					return nil
+				}
+				return err
+			})
+		case "atagain": // the same random-access read twice through one instance: the second answer is the one reported
+			p.Class = guarded(10*time.Second, func() error {
+				var err error
+				for attempt := 0; attempt < 2; attempt++ {
+					var rd io.ReaderAt
+					rd, err = fsr.GetAt(context.Background(), res.Key)
+					if err != nil {
+						continue
+					}
+					buf := make([]byte, p.N)
+					var n int
+					n, err = rd.ReadAt(buf, int64(p.Off))
+					out = buf[:n]
+					if err == io.EOF {
+						err = nil
+					}
 				}
 				return err
 			})
@@ -426,7 +451,7 @@ func cafsCoq(cs *cafsCase) string {
 				orc = fmt.Sprintf("(repeat (70000%%nat, true) %d%%nat)", total+4*len(keys)+16)
 			}
 			probes[i] = fmt.Sprintf("PSeq [%s]%%nat %s %s", strings.Join(bufs, ";"), orc, obs(p))
-		case "at":
+		case "at", "atagain":
 			probes[i] = fmt.Sprintf("PAt %d%%nat %d%%nat %s", p.Off, p.N, obs(p))
 		case "warmseq":
 			probes[i] = "PWarmSeq " + obs(p)
@@ -681,8 +706,8 @@ func cafsProp(prop string) propFn {
 		var history [][2]string // blob store carried from case to case (C02 histories, C03 foreign blobs)
 		c.Rule = map[string]string{
 			"C01": "contents of 0..6 leaves (boundaries +-1, identical leaves), leaf sizes 64..128 in the evaluated cases, chunkings {WriterTo single write, single read, 1-byte, fixed k, random incl. > leaf}, sources that signal the end with their last bytes or with a separate read, stream modes {bulk, 1 byte per call, EOF with data}, prefetch 0..3, Read with many buffer-size sequences, ReadAt over a boundary grid incl. past EOF, both WriteTo paths; non-trivial = Put succeeded with at least one leaf, distinct by key+chunking",
-			"C02": "histories of Puts into one shared blob store (same content again, contents sharing leaves, prefixes of earlier contents), flush concurrency 1..16; keys compared three ways: implementation, Gallina BLAKE2b tree model, Python hashlib; non-trivial = Put with at least one leaf, distinct by key",
-			"C03": "every kind of single-blob damage (bit flip at boundary/random positions, truncation, emptying, deletion, swap with a leaf of the same or of another object, root blob replaced by another object's root blob, appended bytes) on objects of 1..6 leaves, observed through Read, ReadAt, both WriteTo paths with cold caches, and a full download of a bundle holding the object as its only file; non-trivial = damaged case with at least one leaf, distinct by key+damage",
+			"C02": "histories of Puts into one shared blob store (same content again, contents sharing leaves, prefixes of earlier contents; one case in six with 17..40 leaves, 2..16 concurrent flushes and blob writes of 1..3 ms so that flushes stay in flight), flush concurrency 1..16; keys compared three ways: implementation, Gallina BLAKE2b tree model, Python hashlib; non-trivial = Put with at least one leaf, distinct by key",
+			"C03": "every kind of single-blob damage (bit flip at boundary/random positions, truncation, emptying, deletion, swap with a leaf of the same or of another object, root blob replaced by another object's root blob, appended bytes) on objects of 1..6 leaves, observed through Read, ReadAt (also a second time through the same instance), both WriteTo paths with cold caches, and a full download of a bundle holding the object as its only file; non-trivial = damaged case with at least one leaf, distinct by key+damage",
 		}[prop]
 		if prop == "C01" {
 			cafsBigCases(c, r)
@@ -703,8 +728,15 @@ func cafsProp(prop string) propFn {
 					content = append(append([]byte(nil), p...), r.Bytes(r.Intn(L+2))...)
 				}
 			}
+			long := (prop == "C02" || prop == "C01") && i%6 == 5
+			if long { // many leaves, kept in flight by slow blob writes
+				content = r.Bytes(L*r.Range(17, 40) + r.Intn(L))
+			}
 			chunks, wt := cafsChunking(r, content, L)
 			cs := &cafsCase{L: L, WriterTo: wt, EOFData: r.Bool(), ReaderMode: r.Intn(4), Prefetch: r.Intn(4), Flushes: []int{1, 2, 10, 16}[r.Intn(4)]}
+			if long {
+				cs.SlowPut, cs.Flushes = r.Range(1, 3), []int{2, 4, 10, 16}[r.Intn(4)]
+			}
 			if r.Chance(1, 3) {
 				cs.CacheBytes = L * r.Range(1, 4)
 			}
@@ -753,7 +785,8 @@ func cafsProp(prop string) propFn {
 				}
 				cs.Damage = cafsDamages(r, probe, foreign)
 				cs.Probes = []cafsProbe{{Kind: "seq", Bufs: []int{[]int{1, L, 2*L + 1, 17}[r.Intn(4)]}}, {Kind: "wtat"}, {Kind: "wt"}, {Kind: "dl"},
-					{Kind: "at", Off: 0, N: len(content) + 3}, {Kind: "at", Off: r.Intn(len(content) + 1), N: r.Range(1, 2*L)}}
+					{Kind: "at", Off: 0, N: len(content) + 3}, {Kind: "at", Off: r.Intn(len(content) + 1), N: r.Range(1, 2*L)},
+					{Kind: "atagain", Off: 0, N: len(content) + 3}, {Kind: "atagain", Off: r.Intn(len(content) + 1), N: r.Range(1, 2*L)}}
 				if r.Bool() { // the same reads again through an instance that read the object before it was damaged
 					cs.Warm = true
 					cs.Probes = append(cs.Probes, cafsProbe{Kind: "warmseq", Bufs: []int{4096}}, cafsProbe{Kind: "warmat", Off: r.Intn(len(content) + 1), N: r.Range(1, 2*L)},
